@@ -590,6 +590,24 @@ func TestVerifReplay(t *testing.T) {
 		if !bytes.Equal(m2.Bytes(), w2.Bytes()) { t.Fatalf("case %%d: mixed multiplication with P = G", i) }
 	}
 }''' % (go_bytes(enc(Pp)), '\n'.join(rows))
+    # variable-point multiplication with scalars of other lengths (solver witnesses and fixed ones)
+    shorts = [[1], [2], [0], [1, 0], [0x12, 0x34, 0x56], [0xff] * 31, [0] * 31 + [3], [1] + [0] * 32, [0xff] * 33, []]
+    for k_, fl in fails.items():
+        for desc, wit in fl:
+            if wit and wit[0] == 'mult' and wit[1] != 32:
+                shorts.append(list(wit[2]))
+    srows = []
+    for sc in shorts[:40]:
+        kv = int.from_bytes(bytes(sc), 'big') if sc else 0
+        srows.append('{%s, %s},' % (go_bytes(sc) if sc else '[]byte{}', go_bytes(enc(ref.mul(kv % N, Pp)))))
+    src = src.rstrip()[:-1] + '''	short := []struct{ k, kP []byte }{
+%s
+	}
+	for i, c := range short {
+		p, err := ScalarMult(P, c.k)
+		if err != nil || !bytes.Equal(p.Bytes(), c.kP) { t.Fatalf("short case %%d: ScalarMult with a %%d-byte scalar differs from [k]P", i, len(c.k)) }
+	}
+}''' % '\n'.join(srows)
     okr, outr, pathr = ck.go_test('sm2/internal', src, name='scalarmult', timeout=600)
     if okr is True:
         ck.validated += len(rows)
